@@ -60,7 +60,8 @@ type JSONOpts struct {
 	Nodes  int // node budget (0 = unlimited)
 	Tags   int // tag universe at container-capable depths
 	Leaf   int // tag universe below Depth
-	NoVar  bool // strings (values and keys) do not start with '?'
+	NoVar  bool // string values do not start with '?'
+	NoVarKeys bool // map keys do not start with '?'
 	Finite bool // numbers are finite (JSON cannot carry NaN/Inf)
 	Own    *Owner
 	used   int
@@ -191,12 +192,12 @@ func (ex *Exec) lazyResolve(l *Lazy) Iface {
 	case TF64:
 		f := ex.fresh(l.Name+"_f", smt.FP64)
 		if o.Finite {
-			ex.addPC(smt.Not(smt.FPIsNaN(f)))
-			ex.addPC(smt.Not(smt.FPIsInf(f)))
+			ex.addSide(smt.Not(smt.FPIsNaN(f)))
+			ex.addSide(smt.Not(smt.FPIsInf(f)))
 		}
 		r = Iface{T: types.Typ[types.Float64], V: f}
 	case TStr:
-		r = Iface{T: types.Typ[types.String], V: ex.lazyString(l.Name+"_s", o)}
+		r = Iface{T: types.Typ[types.String], V: ex.lazyString(l.Name+"_s", o, false)}
 	case TI64:
 		r = Iface{T: types.Typ[types.Int64], V: ex.fresh(l.Name+"_i", smt.BV64)}
 	case TInt:
@@ -228,14 +229,14 @@ func (ex *Exec) lazyResolve(l *Lazy) Iface {
 	return r
 }
 
-func (ex *Exec) lazyString(name string, o *JSONOpts) Value {
+func (ex *Exec) lazyString(name string, o *JSONOpts, isKey bool) Value {
 	if len(o.StrPool) > 0 {
 		i := ex.chooseN("pool:"+name, len(o.StrPool))
 		return o.StrPool[i]
 	}
 	s := ex.freshString(name)
-	if o.NoVar {
-		ex.addPC(smt.Not(smt.StrPrefixOf(smt.StrConst("?"), s)))
+	if (o.NoVar && !isKey) || (o.NoVarKeys && isKey) {
+		ex.addSide(strNotVar(s))
 	}
 	return s
 }
@@ -258,7 +259,7 @@ func (ex *Exec) forceMap(m *Map) {
 	n := sp.min + ex.chooseN("maplen:"+sp.name, max-sp.min+1)
 	o.used += n
 	for i := 0; i < n; i++ {
-		k := ex.lazyString(fmt.Sprintf("%s_k%d", sp.name, i), o)
+		k := ex.lazyString(fmt.Sprintf("%s_k%d", sp.name, i), o, true)
 		// keys pairwise distinct
 		for _, e := range m.Entries {
 			eq := ex.equal(types.Typ[types.String], e.K, k, nil)
